@@ -487,3 +487,21 @@ package tchannel
 // where the element is created: heap.Fix is only correct when a single key
 // changed since the heap was last in order.
 //@ writers peerScore.score : newPeerScore, updatePeer
+
+// Rotation ("every one of n peers is chosen at least once in any 3n selections")
+// rests on ONE mechanism: choosePeer pops the peer it selects and pushes it back
+// with a fresh order stamp. So every peer a list hands out must be the result of
+// a choosePeer call -- never read off the top of the heap some other way.
+// lastchosen(l): the peer the latest choosePeer call on l returned (volatile).
+//@ ghostfield lastchosen volatile
+//@ func (l *PeerList) choosePeer(prevSelected map[string]struct{}, avoidHost bool) (p *Peer)
+//@   defines lastchosen(l) == ref(p)
+//@   property C15
+//@ func (l *PeerList) GetNew(prevSelected map[string]struct{}) (peer *Peer, err error)
+//@   label handed-out-peer-was-selected-by-choosePeer
+//@   ensures peer != nil ==> lastchosen(l) == ref(peer)
+//@   property C15
+//@ func (l *PeerList) Get(prevSelected map[string]struct{}) (peer *Peer, err error)
+//@   label handed-out-peer-was-selected-by-choosePeer
+//@   ensures peer != nil ==> lastchosen(l) == ref(peer)
+//@   property C15
